@@ -19,7 +19,7 @@ echo "demo without patch : $R0"
 echo "lib tests w/ patch : $R1"
 echo "doc tests w/ patch : $R2"
 echo "demo with patch    : $R3"
-git -C /repo apply "$D/patch.diff" && (cd /verif && ./check ALL 2>&1 | grep -v " 0 new finding" > /tmp/eval-checks.txt); git -C /repo checkout -- . ; git -C /repo status --short | head -3
+git -C /repo apply "$D/patch.diff" && (cd /verif && ./check ALL 2>&1 | grep -v " 0 new finding" > /tmp/eval-checks.txt); git -C /repo apply -R "$D/patch.diff" 2>/dev/null || git -C /repo checkout -- . ; git -C /repo clean -fdq src; git -C /repo status --short | head -3
 cat /tmp/eval-checks.txt
 if [ -n "$ID" ]; then
   mkdir -p /verif/seeded/$ID
